@@ -94,7 +94,13 @@ func c18Prepend(c *mc.Ctx, k c18Case) {
 			in = fmt.Errorf("outer: %w", orig)
 		}
 		wantText := k.Prefix + in.Error()
+		origText := in.Error()
 		got := thrift.PrependError(k.Prefix, in)
+		if in.Error() != origText {
+			bad("argument-modified", "PrependError modified the error it was given: text %q -> %q (shared/sentinel errors would accumulate prefixes)", origText, in.Error())
+			return
+		}
+
 		if got == nil {
 			bad("nil", "returned nil")
 			return
@@ -106,6 +112,10 @@ func c18Prepend(c *mc.Ctx, k c18Case) {
 				cls = "text:empty-prefix-and-empty-original-text"
 			}
 			bad(cls, "error text %q, want prefix + original text = %q", got.Error(), wantText)
+			return
+		}
+		if again := thrift.PrependError(k.Prefix, in); again == nil || again.Error() != wantText {
+			bad("argument-modified", "a second PrependError on the same error gives %q, want %q", again, wantText)
 			return
 		}
 		kind := k.Kind
